@@ -45,10 +45,12 @@ import (
 // ---- execution of one request (child side) ----------------------------------------------------
 
 type result struct {
-	answer string
-	real   string // x ops: the observed "class consumed"
-	alloc  uint64
-	pmsg   string // panic message and innermost hive.go frame
+	answer  string
+	real    string // x ops: the observed "class consumed"
+	alloc   uint64
+	micros  int64  // wall time of the call
+	decodes int64  // x ops: element decodes counted by the counting zero-width type
+	pmsg    string // panic message and innermost hive.go frame
 }
 
 func execOp(op string) result {
@@ -72,10 +74,13 @@ func execOp(op string) result {
 		return result{answer: "bad-op"}
 	}
 	var m0, m1 runtime.MemStats
+	zcDecodes = 0
 	runtime.ReadMemStats(&m0)
+	t0 := time.Now()
 	ans, real := run()
+	el := time.Since(t0)
 	runtime.ReadMemStats(&m1)
-	res := result{answer: ans, real: real, alloc: m1.TotalAlloc - m0.TotalAlloc}
+	res := result{answer: ans, real: real, alloc: m1.TotalAlloc - m0.TotalAlloc, micros: el.Microseconds(), decodes: zcDecodes}
 	if ans == "panic" || strings.HasPrefix(real, "panic") || strings.Contains(ans, "panic") {
 		res.pmsg = panicSite(op)
 	}
@@ -136,7 +141,7 @@ func childLoop() {
 			return
 		}
 		res := execOp(strings.TrimRight(line, "\n"))
-		fmt.Fprintf(out, "%s\t%s\t%d\t%s\n", res.answer, res.real, res.alloc, strings.ReplaceAll(strings.ReplaceAll(res.pmsg, "\n", " "), "\t", " "))
+		fmt.Fprintf(out, "%s\t%s\t%d\t%d\t%d\t%s\n", res.answer, res.real, res.alloc, res.micros, res.decodes, strings.ReplaceAll(strings.ReplaceAll(res.pmsg, "\n", " "), "\t", " "))
 		out.Flush()
 		if err != nil {
 			return
@@ -194,6 +199,9 @@ func (c *child) stop() {
 
 var theChild *child
 
+// watchdog: no decoder call on a few hundred KiB may take longer
+const watchdog = 10 * time.Second
+
 // run executes one op in the child; a crash or a timeout is an outcome.
 func runIsolated(op string) result {
 	if theChild == nil {
@@ -213,18 +221,21 @@ func runIsolated(op string) result {
 
 			return result{answer: "crash", pmsg: "fatal runtime error in the child process"}
 		}
-		p := strings.SplitN(l, "\t", 4)
-		for len(p) < 4 {
+		p := strings.SplitN(l, "\t", 6)
+		for len(p) < 6 {
 			p = append(p, "")
 		}
 		a, _ := strconv.ParseUint(p[2], 10, 64)
+		us, _ := strconv.ParseInt(p[3], 10, 64)
+		dc, _ := strconv.ParseInt(p[4], 10, 64)
 
-		return result{answer: p[0], real: p[1], alloc: a, pmsg: p[3]}
-	case <-time.After(60 * time.Second):
+		return result{answer: p[0], real: p[1], alloc: a, micros: us, decodes: dc, pmsg: p[5]}
+	case <-time.After(watchdog):
+		// a runaway call (e.g. an item loop driven by a length field alone) is cut off here
 		theChild.stop()
 		theChild = nil
 
-		return result{answer: "timeout", pmsg: "no answer within 60 s"}
+		return result{answer: "timeout", pmsg: "no answer within " + watchdog.String()}
 	}
 }
 
@@ -377,6 +388,11 @@ func xSeed(name string, rng *hx.Rng) []byte {
 
 func rawX(f []string) string {
 	data := hx.UnHex(f[3])
+	if strings.HasPrefix(f[1], "Z:") {
+		z := strings.Split(f[1], ":")
+
+		return rawZ(z[1], z[2], f[2] == "1", data)
+	}
 	var opts []serix.Option
 	if f[2] == "1" {
 		opts = append(opts, serix.WithValidation())
@@ -1043,6 +1059,23 @@ func oracle(r *hx.Run, op string, res result, mut string) {
 			r.Fail("consumed-le", fmt.Sprintf("reported %d consumed bytes of %d; op: %s", c, n, short), map[string]string{"oracle": "consumed", "op": f[0], "prims": primKinds(f)})
 		}
 	}
+	// wall time: a decoder call on n bytes that takes more than a second (+ 1 ms per KiB) did not work in
+	// proportion to its input
+	if lim := int64(1_000_000) + int64(n)*1000/1024*1000/1000; res.micros > lim {
+		r.Fail("time-bound", fmt.Sprintf("the call took %d us for %d input bytes; op: %s", res.micros, n, short),
+			map[string]string{"oracle": "time", "op": f[0], "prims": primKinds(f)})
+	}
+	// element decodes counted by the counting zero-width type (maps: the item loop must be bounded by the input)
+	if f[0] == "x" && strings.HasPrefix(f[1], "Z:") && !zTargetOf(strings.Split(f[1], ":")[1]).seq &&
+		res.decodes > 64*int64(n)+1024 {
+		r.Fail("iters-bound", fmt.Sprintf("%d element decodes for %d input bytes (bound %d); op: %s", res.decodes, n, 64*n+1024, short),
+			map[string]string{"oracle": "iters", "op": f[0], "prims": primKinds(f)})
+	}
+	if f[0] == "x" && strings.HasPrefix(f[1], "Z:") && zTargetOf(strings.Split(f[1], ":")[1]).seq {
+		// a sequence of zero-width elements pays its fixed per-round cost as often as its count says (as the
+		// read programs with empty items above): outside the property, only the wall time is bounded here
+		return
+	}
 	k := uint64(64)
 	switch f[0] {
 	case "x", "m":
@@ -1348,6 +1381,15 @@ func main() {
 		valid := xSeed(name, rng)
 		data, mut := mutate(rng, valid, xSeed(name, rng), nil)
 		b.emit(fmt.Sprintf("x %s %d %s", name, rng.Intn(2), hx.Hex(data)), mut)
+	}
+	// zero-width element / key / value types, every prefix width, every hostile count (each tier in full)
+	for _, t := range zTargets {
+		for _, w := range zWidths {
+			rng, _ := r.Rng.Fork()
+			for _, op := range genZ(rng, t, w) {
+				b.emit(op, "zero-width")
+			}
+		}
 	}
 	nM := 1200 * scale
 	for i := 0; i < nM; i++ {
